@@ -30,6 +30,13 @@ ZOut z_offset(const PathsZ& in, double delta, int jt, int et, double ml, double 
   CZ::Paths64 s; co.Execute(delta, s); o.closed = fromz(s);
   return o;
 }
+ZOut z_offset_cb(const PathsZ& in, double delta, int jt, int et, double ml, double arc, int mode) {
+  ZOut o;
+  CZ::ClipperOffset co(ml, arc, false, false);
+  co.AddPaths(toz(in), (CZ::JoinType)jt, (CZ::EndType)et);
+  CZ::Paths64 s; co.Execute([&](const CZ::Path64& path, const CZ::PathD&, size_t curr, size_t) { return offset_cb_width(delta, mode, curr, path.size()); }, s); o.closed = fromz(s);
+  return o;
+}
 ZOut z_rectclip(i64 l, i64 t, i64 r, i64 b, const PathsZ& in, bool lines) {
   ZOut o; CZ::Rect64 rc(l, t, r, b);
   CZ::Paths64 s = lines ? CZ::RectClipLines(rc, toz(in)) : CZ::RectClip(rc, toz(in));
